@@ -23,45 +23,7 @@ type runCfg struct {
 	Seed string
 }
 
-func build(cfg runCfg) (*ss.System, error) {
-	sys := raftkvs.New(cfg.Config)
-	switch cfg.Seed {
-	case "":
-	case "elect":
-		if err := sys.Seed(cfg.SeedElect(1)); err != nil {
-			return nil, err
-		}
-	case "commit-lagging":
-		if err := sys.Seed(cfg.SeedElect(1)); err != nil {
-			return nil, err
-		}
-		var acks []int
-		for j := 2; j <= cfg.NumServers/2+1; j++ {
-			acks = append(acks, j)
-		}
-		if err := sys.Seed(cfg.SeedReplicate(1, 1, acks)); err != nil {
-			return nil, err
-		}
-	case "commit2-lagging":
-		// first request replicated everywhere and answered, second one committed on a bare majority
-		// (needs a client script of >= 2 requests)
-		for _, sc := range [][]ss.SeedStep{cfg.SeedElect(1), cfg.SeedReplicate(1, 1, cfg.Others(1)), cfg.SeedClientRecv(1)} {
-			if err := sys.Seed(sc); err != nil {
-				return nil, err
-			}
-		}
-		var acks []int
-		for j := 2; j <= cfg.NumServers/2+1; j++ {
-			acks = append(acks, j)
-		}
-		if err := sys.Seed(cfg.SeedReplicate(1, 1, acks)); err != nil {
-			return nil, err
-		}
-	default:
-		return nil, fmt.Errorf("unknown seed %q", cfg.Seed)
-	}
-	return sys, nil
-}
+func build(cfg runCfg) (*ss.System, error) { return raftkvs.Build(cfg.Config, cfg.Seed, nil) }
 
 type replay struct {
 	Cfg  runCfg `json:"config"`
